@@ -132,6 +132,33 @@ def check_engine(R, f, shape_in, shape_out, Q, shift, fwd, prec, seed, sig, in_d
     R.expect_close(np.asarray(out).ravel() if np.asarray(out).shape == tuple(shape_out) else out, want,
                    tol * max(1.0, scale), sig + ':dense', 'f(dense) vs operator-matrix @ dense (linearity / no sparse special-casing)')
     R.nontrivial(A.size > 1)
+    return A
+
+
+INT_KINDS = ('int64', 'int32', 'uint8', 'bool')
+
+
+def check_engine_int_input(R, f, shape_in, shape_out, A, tol, sig):
+    """integer and boolean fields (a binary mask used as the pupil, a camera frame): the same numbers as the float array of the same
+    values -- one labelled array and the first / last delta per dtype, against the operator matrix of the float deltas"""
+    n = shape_in[0] * shape_in[1]
+    lab = (np.arange(n).reshape(shape_in) * 3 + 1) % 11
+    for kind in INT_KINDS:
+        arrays = [lab % 2 == 0] if kind == 'bool' else [lab.astype(kind)]
+        for pos in (0, n - 1):
+            d = np.zeros(n, dtype=bool if kind == 'bool' else kind)
+            d[pos] = 1
+            arrays.append(d.reshape(shape_in))
+        for x in arrays:
+            xin = x.copy()
+            out = R.call(f, xin, sig=sig + f':{kind}-in:exception')
+            if out is FAILED:
+                break
+            R.expect_equal(xin, x, sig + ':input-mutated', 'the transform modified its input array')
+            want = (A @ x.ravel().astype(complex)).reshape(shape_out)
+            if not R.expect_close(out, want, tol * max(1.0, float(np.sqrt(np.sum(x.astype(float) ** 2)))), sig + ':int-in',
+                                  f'{kind} input array vs the float array of the same values (operator matrix of the float deltas)'):
+                break
 
 
 def run_engines(case, seed, R):
@@ -149,7 +176,9 @@ def run_engines(case, seed, R):
                     sig = f"{name}:{shape_class(si, so)}:{q_class(case['Q'])}:{shift_class(shift)}"
                     samples_out = tuple(so) if (so[0] != so[1] or case['shift'] == 0) else so[0]
                     f = lambda a: f0(a, Q, samples_out, shift)   # noqa
-                    check_engine(R, f, tuple(si), tuple(so), Qr, shift, fwd, prec, seed, sig)
+                    A = check_engine(R, f, tuple(si), tuple(so), Qr, shift, fwd, prec, seed, sig)
+                    if prec == 64 and A is not None:
+                        check_engine_int_input(R, f, tuple(si), tuple(so), A, K_TOL * np.finfo(float).eps, sig)
                     if prec == 32 and method == 'czt':
                         # float32 input: the chirp-Z executor computes in the input dtype
                         check_engine(R, f, tuple(si), tuple(so), Qr, shift, fwd, prec, seed, sig + ':f32in', np.float32)
@@ -482,6 +511,98 @@ def h_canon(st):
 
 # ---------------------------------------------------------------------------------------------
 
+# ---------------------------------------------------------------------------------------------
+# call history of the padded-FFT route (module-level functions: whatever they keep between calls -- pad workspaces, plans,
+# twiddle tables -- is keyed on something, and the alphabet is built so that those keys collide): inputs of different shapes
+# and Q whose PADDED shapes coincide, both directions, both precisions, real / complex / float32 input
+
+FFT_CALLS = {
+    # name: (function, input shape, Q, input kind)            padded shape
+    'f_2x4_Q2':  ('focus', (2, 4), 2, 'c'),                   # (4, 8)
+    'f_1x2_Q4':  ('focus', (1, 2), 4, 'c'),                   # (4, 8)  smaller input, same padded shape
+    'f_4x8_Q1':  ('focus', (4, 8), 1, 'c'),                   # (4, 8)  no padding at all
+    'f_2x4_Q2r': ('focus', (2, 4), 2, 'r'),                   # real input, same geometry
+    'f_2x4_Q2f': ('focus', (2, 4), 2, 'f'),                   # float32 input, same geometry
+    'u_2x4_Q2':  ('unfocus', (2, 4), 2, 'c'),
+    'u_1x2_Q4':  ('unfocus', (1, 2), 4, 'c'),
+    'f_3x3_Q2':  ('focus', (3, 3), 2, 'c'),                   # (6, 6)
+    'f_2x2_Q3':  ('focus', (2, 2), 3, 'c'),                   # (6, 6)
+    'f_3x2_Q1.5': ('focus', (3, 2), 1.5, 'c'),                # (5, 3): non-integer Q, odd padded shape
+}
+FFT_EVENTS = ['p32', 'p64'] + sorted(FFT_CALLS)
+
+
+class FftState:
+    __slots__ = ('last', 'held', 'hist')
+
+    def __init__(self):
+        self.last, self.held, self.hist = None, [], []
+
+
+def fh_fresh(init, seed):
+    reset_executors(64)
+    return FftState()
+
+
+def fh_events(init, hist, st):
+    return [e for e in FFT_EVENTS if not (hist and hist[-1] == e and e in ('p32', 'p64'))]
+
+
+def _fft_input(name, seed):
+    fn, shp, Q, kind = FFT_CALLS[name]
+    x = dense(shp, seed, 31 + sorted(FFT_CALLS).index(name))
+    if kind == 'r':
+        x = x.real.copy()
+    elif kind == 'f':
+        x = x.real.astype(np.float32)
+    return x
+
+
+def fh_apply(st, ev, R):
+    st.hist.append(ev)
+    st.last = None
+    if ev == 'p32':
+        config.precision = 32
+    elif ev == 'p64':
+        config.precision = 64
+    else:
+        fn, shp, Q, kind = FFT_CALLS[ev]
+        x = _fft_input(ev, _SEED_FH[0])
+        out = R.call(getattr(propagation, fn), x, Q, sig=f'fft-history:{fn}:exception')
+        st.last = (ev, out, x)
+        if out is not FAILED:
+            st.held.append((ev, out, np.array(out, copy=True)))
+    return st
+
+
+_SEED_FH = [0]
+
+
+def fh_check(st, init, hist, R):
+    for pev, pobj, pcopy in st.held[:-1] if st.last is not None else st.held:
+        R.expect_equal(np.asarray(pobj), pcopy, 'fft-history:result-changed-by-later-call', f'the array returned by {pev} changed after later events (history {hist})')
+    if st.last is None:
+        R.outcome('config')
+        return
+    ev, out, x = st.last
+    if out is FAILED:
+        return
+    fn, shp, Q, kind = FFT_CALLS[ev]
+    so = tuple(math.ceil(v * Q) for v in shp)
+    Qeff = (so[0] / shp[0], so[1] / shp[1])
+    R.expect_equal(x, _fft_input(ev, _SEED_FH[0]), f'fft-history:{fn}:input-mutated', f'{ev} modified its input array')
+    prec = 32 if config.precision is np.float32 else 64
+    eps = max(np.finfo(np.float32 if prec == 32 else np.float64).eps, np.finfo(x.real.dtype).eps)
+    ref = ref_dft.dft2(x.astype(complex), Qeff, so, (0, 0), fn == 'focus')
+    R.expect_close(out, ref, K_TOL * eps * 10, f'fft-history:{fn}:p{prec}:depends-on-prior-calls', f'{ev} after {hist[:-1]}: field vs textbook sum on the padded-FFT grid {shp}->{so}')
+    R.nontrivial(len(hist) > 1)
+    R.outcome(f'call:p{prec}')
+
+
+def fh_canon(st):
+    return tuple(st.hist)        # no merging: any module-level memo may depend on every earlier call
+
+
 def plan(tier, seed):
     B = 4 if tier == 'quick' else 7
     shapes = [[a, b] for a in range(1, B + 1) for b in range(1, B + 1)]
@@ -517,7 +638,7 @@ def plan(tier, seed):
         ScopeUnit('engines', eng_cases, run_engines,
                   f'(input shape, output shape) in ([1..{B}]^2)^2 x Q in {{1, 2, 2.0, 1.5, 0.75, (1,2), (2.5,1.25), [2,1.5]}} x shift in {{(0,0), 0, (1,0), (0,-2), (0.5,1.25), seeded generic}}'
                   + (' (quick: full Q x shift product on shapes <= 3, diagonal of the product elsewhere)' if tier == 'quick' else '')
-                  + ' ; inside every case: {mdft, czt} x {forward, inverse} x {precision 64, 32} (+ float32 input for czt); data dimension closed by the operator matrix from all real deltas, all i*deltas and one seeded dense complex array; oracle = textbook double sum (complex equality unshifted, per-output-sample unit-modulus factor allowed when shifted)'),
+                  + ' ; inside every case: {mdft, czt} x {forward, inverse} x {precision 64, 32} (+ float32 input for czt; + int64 / int32 / uint8 / bool input arrays under precision 64: one labelled array and two deltas per dtype); data dimension closed by the operator matrix from all real deltas, all i*deltas and one seeded dense complex array; oracle = textbook double sum (complex equality unshifted, per-output-sample unit-modulus factor allowed when shifted)'),
         ScopeUnit('fft_route', fft_cases, run_fft,
                   f'every input shape in [1..{Bf}]^2 x Q in {{1,1.5,2,2.5,3}}: focus / unfocus operator matrices vs the textbook sum on the padded grid (per-axis Q = padded/unpadded), vs mdft and czt on that grid, Wavefront.focus/unfocus, both precisions'),
         ScopeUnit('wrappers', wr_cases, run_wrappers,
@@ -530,4 +651,8 @@ def plan(tier, seed):
                     f'BFS to depth {depth} over events {EVENTS} on the shared module-level mdft / czt executors and config.precision; the call events are built to collide in the cache keys (Q=2 vs 2.0 vs tuple, samples int vs tuple, shift 0 vs (0,0), same geometry other direction, same key other precision, same key other input dtype); canonical state = (precision, cache keys with cached dtypes); invariant in every state: the call equals, bit for bit and in dtype, the same call on a fresh executor under the current precision, and equals the textbook sum'),
         HistoryUnit('executor_history_backprop', [{'prec': 64, 'alphabet': 2}], h_fresh, h_events, h_apply, h_check, h_canon, depth,
                     f'BFS to depth {depth} over events {EVENTS2}: transforms between unequal sample counts A=(3,4) and B=(5,6) in both directions (so that the opposite transform lives under a different cache key), the matrix-DFT gradient-backpropagation entry points (which share the cache), shifted variants, czt, precision switches and clear(); same canonical state and invariant as executor_history'),
+        HistoryUnit('fft_route_history', [{}], fh_fresh, fh_events, fh_apply, fh_check, fh_canon, 3 if tier == 'quick' else 4,
+                    f'BFS to depth {3 if tier == "quick" else 4} over events {FFT_EVENTS}: the padded-FFT routes focus / unfocus called with inputs of different shape and Q whose padded shapes coincide '
+                    '((2,4)@Q2, (1,2)@Q4, (4,8)@Q1 -> (4,8); (3,3)@Q2, (2,2)@Q3 -> (6,6); (3,2)@Q1.5 -> (5,3)), complex / real / float32 input, both directions, precision switches; no state merging '
+                    '(the state is the history); invariant in every state: the call equals the textbook sum on its own padded grid whatever ran before, its input is untouched, and every array returned earlier still holds its value'),
     ]
